@@ -78,3 +78,61 @@ specialise(
     bounds="token length 3",
     weight=600,
 )
+
+
+# ---- c: translations exist only for languages the sheets name (round 3) ------------------------------------
+def c08_languages_named(la1: bool, la2: bool, lb1: bool, lb2: bool, ima: bool, q_plain: bool, c0: int) -> bool:
+    """
+    vpre: 97 <= c0 <= 122
+    vpost: _ == True
+    """
+    from harness.common import build_survey, elements
+
+    a = {"list_name": "l1", "name": "a"}
+    b = {"list_name": "l1", "name": "b"}
+    if la1:
+        a["label::L1"] = S(c0, 49)
+    if la2:
+        a["label::L2"] = S(c0, 50)
+    if ima:
+        a["image::L1"] = "a.png"
+    if lb1:
+        b["label::L1"] = S(c0, 51)
+    if lb2:
+        b["label::L2"] = S(c0, 52)
+    q = {"type": "select_one l1", "name": "q1"}
+    named = set()
+    if q_plain:
+        q["label"] = "Q"
+        named.add("default")
+    else:
+        q["label::L1"] = "Q1"
+        q["label::L2"] = "Q2"
+        named.update(("L1", "L2"))
+    for r in (a, b):
+        for k in r:
+            if "::" in k:
+                named.add(k.split("::")[1])
+    survey, _w, _js = build_survey({"survey": [q], "choices": [a, b]})
+    root = survey.xml()
+    langs = [t.getAttribute("lang") for t in elements(root, "translation")]
+    if len(langs) != len(set(langs)):
+        return False
+    for lg in langs:
+        if lg not in named:
+            return False  # a translation for a language no sheet, setting or argument mentions
+    return True
+
+
+specialise(
+    "C08",
+    "c.languages-named",
+    c08_languages_named,
+    {"q_plain": [False, True]},
+    timeout=300,
+    kernel=K + ("pyxform.survey:Survey._setup_translations", "pyxform.survey:Survey._add_empty_translations"),
+    shims=("S1", "S2", "S3", "S4"),
+    symbolic="presence of label::L1 / label::L2 on two choices and of an image::L1 on the first (5 symbolic booleans: choices may be left without any label or media), tracer character",
+    bounds="one select over a 2-choice list; the question label is plain or translated (fixed per instance); every <translation lang> must be a language named by some column (the unlabelled-choice dangling id is C07's known finding F11 and is not judged here)",
+    weight=40,
+)
